@@ -9,7 +9,8 @@
                               rule-check loop with break, statistic loop, deferred recover),
                               EntryPassedOnPanic, exit, GetPooledContext, RefurbishContext
      core/base/entry.go    SentinelEntry.Exit (sync.Once; error stored inside the Once; exit
-                           handlers; recover; `exited` flag), SetError/SetPair (no-ops after exit)
+                           handlers, each under its own recover (a9e6cc9); recover; `exited` flag),
+                           SetError/SetPair (no-ops after exit)
      core/base/context.go  EntryContext.Reset
      core/stat/stat_slot.go, stat_prepare_slot.go, base_node.go   the statistic slot
 
@@ -344,13 +345,16 @@ Definition do_entry (chains : Z -> chain) (s : state) (res : Z) (inb : bool) (ba
        REntered e c (rev (r_log r)))
   end.
 
+(* since a9e6cc9 every handler runs inside SentinelEntry.runExitHandler, which recovers a panic of
+   the handler and logs it like a returned error: all handlers run, in order, whatever each of them
+   does, and the second component (a panic left the handler loop) is always false *)
 Fixpoint run_handlers (hs : list (Z * hbeh)) (lg : list call) : list call * bool :=
   match hs with
   | [] => (lg, false)
   | (id, b) :: r =>
       let lg' := LHandler id :: lg in
       match b with
-      | HPanic => (lg', true)
+      | HPanic => run_handlers r lg'
       | _ => run_handlers r lg'
       end
   end.
